@@ -14,6 +14,7 @@ Variants (all tasks take one argument x; `parse` tasks take a File):
   {"k": "catch", "callee": j, "add": b}          catch(t_j(x), ValueError, recover) + b, recover -> -1
   {"k": "readfile", "callee": j, "file": p}      t_j(File(paths[p])) + x   (t_j must be a parse task)
   {"k": "parse", "add": b}                        int(file.read()) + b
+  {"k": "callcond", "consumer": j, "test": k, "then": l}   t_j(cond(t_k(x) >= 0, t_l(x), x))
 plus optional "ver": "<string>" and "opts": {definition-time task options, e.g. check_valid}.
 """
 from __future__ import annotations
@@ -98,6 +99,13 @@ class Family:
             return x + v["add"]
         if k == "catch":
             return catch(self.tasks[v["callee"]](x), ValueError, self.recover_task()) + v["add"]
+        if k == "callcond":
+            from redun.scheduler import cond
+
+            c = cond(self.tasks[v["test"]](x) >= 0, self.tasks[v["then"]](x), x)
+            if v.get("kw"):
+                return self.tasks[v["consumer"]](x=c)
+            return self.tasks[v["consumer"]](c)
         if k == "readfile":
             return self.tasks[v["callee"]](File(self.paths[v["file"]])) + x
         if k == "parse":
@@ -114,6 +122,6 @@ class Family:
             return seen
         seen.add(i)
         v = self.variants[i]
-        for j in ([v["callee"]] if "callee" in v else []) + list(v.get("callees", [])):
+        for j in ([v["callee"]] if "callee" in v else []) + list(v.get("callees", [])) + [v[f] for f in ("consumer", "test", "then") if f in v]:
             self.uses(j, seen)
         return seen
